@@ -114,13 +114,9 @@ def degrees(k, upto=700):
     """LT degree d of the tuple of every ESI < upto of a block with K = K' = k (k a Table-2 size), from the model"""
     if k in _DEG:
         return _DEG[k]
-    import re
-    src = open(C.REPO + "/src/systematic_constants.rs").read()
-    body = src[src.index("SYSTEMATIC_INDICES_AND_PARAMETERS") :]
-    body = body[body.index("= [") : body.index("];")]
-    row = next(tuple(int(x) for x in m.groups()) for m in re.finditer(r"\((\d+),\s*(\d+),\s*(\d+),\s*(\d+),\s*(\d+)\)", body) if int(m.group(1)) == k)
-    p1src = src[src.index("P1_TABLE") :]
-    p1 = dict((int(a), int(b)) for a, b in re.findall(r"\((\d+),\s*(\d+)\)", p1src[p1src.index("= [") : p1src.index("];")]))[k]
+    rows, p1t = C.repo_table2()
+    row = next(r for r in rows if r[0] == k)
+    p1 = p1t[k]
     kp, j, s_, h, w = row
     res = C.run_model([C.Case("tuple", [x, w, j, p1]) for x in range(upto)])
     _DEG[k] = [int(r.split()[1]) for r in res]
